@@ -119,7 +119,7 @@ Definition field_keys_ok (fds : list fdecl) : bool :=
      end) ks.
 
 Definition fdecl_ok (tab : symtab) (m : qname) (fd : fdecl) : bool :=
-  (1 <=? fd_num fd) && (fd_num fd <=? 1048576) &&
+  (1 <=? fd_num fd) && (fd_num fd <=? 1048576) && (0 <=? fd_label fd) && (fd_label fd <=? 2) &&
   (if fd_kind fd =? 0 then match resolve tab m (fd_ref fd) with Some _ => true | None => false end
    else packable (fd_kind fd) || (fd_kind fd =? 9) || (fd_kind fd =? 12)) &&
   (if fd_label fd =? 2 then
